@@ -1,9 +1,12 @@
 #!/bin/bash
-# usage: tools/try_mutant.sh <patch.diff> <ID> [<ID> ...]  -- apply to /repo, run the checks, always undo
-P=$1; shift
-git -C /repo apply "$(realpath "$P")" || { echo "patch does not apply"; exit 2; }
-trap 'git -C /repo checkout -- . ' EXIT
+# usage: tools/try_mutant.sh <patch.diff> <ID> [<ID> ...]
+# applies the change to a scratch worktree of /repo (never to /repo itself, which other work may be using),
+# runs the checks against it (VERIF_REPO), and removes the worktree
+P=$(realpath "$1"); shift
+WT=$(mktemp -d /tmp/trymut.XXXXXX)
+git -C /repo worktree add -q --detach "$WT/repo" HEAD || exit 2
+trap 'git -C /repo worktree remove --force "$WT/repo" 2>/dev/null; rm -rf "$WT"' EXIT
+git -C "$WT/repo" apply "$P" || { echo "patch does not apply"; exit 2; }
 for id in "$@"; do
-  VERIF_NO_EVIDENCE=1 /verif/vcheck $id 2>&1 | tail -8
-  echo "exit=$? (check $id)"
+  VERIF_REPO="$WT/repo" VERIF_NO_EVIDENCE=1 VERIF_SKIP_BUILD=1 /verif/vcheck $id 2>&1 | tail -8
 done
